@@ -945,6 +945,38 @@ impl Hyb {
                         self.shutdown(false).await;
                         return Res::boolean(self.reopen().await);
                     }
+                    // abandoned lookup: the caller starts a lookup of key `arg & 0xffff`, polls it `arg >> 16` times and
+                    // then drops the future; foyer's fetch task carries on in the background, next to the client's
+                    // following operations
+                    21 => {
+                        let kk = *arg & 0xffff;
+                        let polls = (*arg >> 16) as usize;
+                        hist::ev("abandoned_lookup_start", kk, polls as u64, 0);
+                        let mut fut = Box::pin(cache.get(&kk));
+                        let mut done = None;
+                        for _ in 0..polls {
+                            if let std::task::Poll::Ready(r) = std::future::poll_fn(|cx| std::task::Poll::Ready(std::future::Future::poll(fut.as_mut(), cx))).await {
+                                done = Some(r);
+                                break;
+                            }
+                            shuttle::future::yield_now().await;
+                        }
+                        drop(fut);
+                        return match done {
+                            Some(Ok(Some(e))) => {
+                                let r = judge(&case, kk, e.value(), "get");
+                                note_source(kk, e.source());
+                                hist::ev("h_get", kk, r.ver as u64, src(e.source()) | (age_of(&e) << 8));
+                                r
+                            }
+                            Some(Ok(None)) => Res::miss(),
+                            Some(Err(e)) => Res::err(crate::memscn::err_kind(&e)),
+                            None => {
+                                hist::fault("caller_abandoned_lookup");
+                                Res::unit()
+                            }
+                        };
+                    }
                     // held fetch: disk loads are held while a get_or_fetch of key `arg` is in flight; the origin must
                     // not start before the disk lookup has resolved
                     20 => {
